@@ -21,7 +21,7 @@ with tempfile.TemporaryDirectory(dir='/var/tmp') as td:
     missing = [t for t in base["stable_pass"] if t not in passed]
     # hypothesis-based property tests and a few timing-sensitive tests fail now and then under load: re-run the
     # missing ones on their own (twice at most) before calling them missing
-    for attempt in range(2):
+    for attempt in range(3):
         if not missing or len(missing) > 40:
             break
         still = []
@@ -32,6 +32,9 @@ with tempfile.TemporaryDirectory(dir='/var/tmp') as td:
             mod = path[:-1] if path[-1][:1].isupper() else path
             fn = os.path.join(repo, *mod) + '.py'
             node = fn + ('::' + path[-1] if path[-1][:1].isupper() else '') + '::' + name
+            # hypothesis stores a failing example in .hypothesis and replays it first: remove it so that the re-run draws afresh
+            import shutil
+            shutil.rmtree(os.path.join(repo, '.hypothesis'), ignore_errors=True)
             r = subprocess.run(['/venv/bin/python', '-m', 'pytest', '-q', '-p', 'no:cacheprovider', '--timeout=900', node],
                                cwd=repo, env=env, stdout=subprocess.DEVNULL, stderr=subprocess.DEVNULL)
             if r.returncode != 0:
